@@ -4,6 +4,7 @@ CONSTANTS
   GenDepth = 0
   MaxT = 13
   MaxAdm = 3
+  MaxReloads = 0
   MaxN = 2
   RuleSets <- SetsSmall
 CONSTRAINT StateBound
